@@ -146,6 +146,13 @@ var c19Types = func() []c19Type {
 
 const c19ParamTypes = 19 // the first 19 entries may be used as parameter / result types
 
+func c19Abbrev(d []string) string {
+	if len(d) <= 12 {
+		return strings.Join(d, ",")
+	}
+	return strings.Join(d[:6], ",") + fmt.Sprintf(",…(%d in all)…,", len(d)) + strings.Join(d[len(d)-3:], ",")
+}
+
 func c19Nilable(k reflect.Kind) bool {
 	switch k {
 	case reflect.Chan, reflect.Func, reflect.Interface, reflect.Map, reflect.Ptr, reflect.Slice, reflect.UnsafePointer:
@@ -349,8 +356,15 @@ func TestC19Callable(t *testing.T) {
 		for i := 0; i < mand; i++ {
 			args = append(args, c19Types[inIdx[i]].gen(t, "arg"))
 		}
+		manyArgs := false // some CallArgs list of this case has more entries than the implementation can pass on (128)
+		hugeTail := false
 		if variadic {
-			for k := rapid.IntRange(0, 3).Draw(t, "tail"); k > 0; k-- {
+			k := rapid.IntRange(0, 3).Draw(t, "tail")
+			if rapid.IntRange(0, 24).Draw(t, "hugeTail") == 0 {
+				// a very long argument list (a direct call takes any number of variadic arguments)
+				k, hugeTail = rapid.SampledFrom([]int{100, 126, 127, 128, 129, 130, 200, 1000}).Draw(t, "hugeTailLen"), true
+			}
+			for ; k > 0; k-- {
 				args = append(args, c19Types[inIdx[nIn-1]].gen(t, "targ"))
 			}
 		}
@@ -381,6 +395,8 @@ func TestC19Callable(t *testing.T) {
 				perturbed = true
 			}
 		}
+		_ = hugeTail
+		manyArgs = len(args) > 128
 		for _, a := range args {
 			if a == nil {
 				anyNil = true
@@ -619,6 +635,9 @@ func TestC19Callable(t *testing.T) {
 				pre = append(pre, c19Types[rapid.IntRange(0, len(c19Types)-1).Draw(t, "pextraT")].gen(t, "pextraV"))
 			}
 			preOK := c19ArgsOK(pre, ins, variadic)
+			if len(pre) > 128 {
+				manyArgs = true
+			}
 			var d []string
 			for _, a := range pre {
 				d = append(d, c19Describe(a))
@@ -676,7 +695,7 @@ func TestC19Callable(t *testing.T) {
 		}
 		trace := []string{
 			"sig=" + fnType.String(),
-			"args=(" + strings.Join(argDesc, ",") + ")",
+			"args=(" + c19Abbrev(argDesc) + ")",
 			"res=" + resMode + "(" + strings.Join(resDesc, ",") + ")",
 			fmt.Sprintf("expectCall=%v fnPanics=%v nestedCall=%v", expectCall, doPanic, nested),
 		}
@@ -720,6 +739,9 @@ func TestC19Callable(t *testing.T) {
 				if pv2 != nil {
 					vkit.Fail(t, "C19/panic/option-reuse", "Call panicked when a CallArgs option value was applied to a second callable: %v\ncase: %v", pv2, trace)
 				}
+				if ok2 && len(args) > 128 && res2 != nil && calls2 == 0 {
+					return // more arguments than can be passed on: an error without a call is allowed
+				}
 				if ok2 && (res2 != nil || calls2 != 1) {
 					vkit.Fail(t, "C19/option-reuse", "the same CallArgs option applied to a second, compatible callable: error %v, invoked %d times (expected a call)\ncase: %v", res2, calls2, trace)
 				}
@@ -744,6 +766,9 @@ func TestC19Callable(t *testing.T) {
 				// the callee's own panic propagates unchanged — allowed
 			} else {
 				sig := "C19/panic/other"
+				if len(args) > 128 {
+					sig = "C19/panic/many-args"
+				}
 				for _, a := range args {
 					if a == nil {
 						sig = "C19/panic/untyped-nil-arg"
@@ -758,6 +783,11 @@ func TestC19Callable(t *testing.T) {
 			}
 		}
 
+		if expectCall && manyArgs && pv == nil && err != nil && calls == 0 {
+			// more arguments than the implementation can pass on: a descriptive error without a call is one of the two
+			// outcomes the property allows (what it never allows is a panic, or a call with other arguments)
+			expectCall = false
+		}
 		if expectCall {
 			if pv == nil {
 				if doPanic {
